@@ -540,10 +540,27 @@ class ExecMixin(object):
         pure = set(getattr(self.unit, "pure_callees", ()))     # contracts that modify neither receiver nor arguments
         cmethods = set(m for (_, m) in self.method_contracts) - pure
         gnames = set(self.unit.global_callees) - pure
+        by_unit = dict((m, cu) for (_, m), cu in self.unit.callee_units.items())
         for s_ in body:
             for n_ in ast.walk(s_):
                 if isinstance(n_, ast.Call):
                     f_ = n_.func
+                    if isinstance(f_, ast.Attribute) and f_.attr in cmethods and f_.attr in by_unit:
+                        # a callee under contract changes exactly what its modifies clause names
+                        cu = by_unit[f_.attr]
+                        pnames = [p_ for p_ in cu.params if p_ != "self" and p_ not in cu.ghost_params
+                                  and not (isinstance(cu.params[p_], tuple) and cu.params[p_][0] == "obj"
+                                           and str(cu.params[p_][1]).startswith("module:"))]
+                        for m_ in cu.modifies:
+                            root, _, rest = m_.partition(".")
+                            if root == "self":
+                                muts.add(ast.unparse(f_.value) + ("." + rest if rest else ""))
+                            elif root in pnames:
+                                i_ = pnames.index(root)
+                                a_ = n_.args[i_] if i_ < len(n_.args) else next((k.value for k in n_.keywords if k.arg == root), None)
+                                if isinstance(a_, (ast.Name, ast.Attribute)):
+                                    muts.add(ast.unparse(a_) + ("." + rest if rest else ""))
+                        continue
                     if isinstance(f_, ast.Attribute) and f_.attr in cmethods:
                         muts.add(ast.unparse(f_.value))
                         for a_ in n_.args:
